@@ -116,4 +116,144 @@ theorem rnDiv_mono (n1 d1 n2 d2 : Nat) (hn1 : 0 < n1) (hd1 : 0 < d1) (hn2 : 0 < 
   rw [x1, y1, x2, y2]
   exact RN.mono hd1 hd2 h1 h2 hle
 
+theorem rnDiv_fst_pos (n d : Nat) (hn : 0 < n) (hd : 0 < d) : 0 < (rnDiv n d).1 := by
+  obtain ⟨m, a, b, _, h, heq⟩ := rnDiv_spec n d hn hd
+  rw [heq]
+  exact Nat.lt_of_lt_of_le (Nat.pow_pos (by decide)) (h.m_ge hd)
+
+/-- the binary64 quotient of two binary64 values is the correctly rounded quotient of their values -/
+theorem fdiv_eq (x y : Nat × Int) (hx : 0 < x.1) (hy : 0 < y.1) :
+    fdiv x y = rnDiv (num x * den y) (num y * den x) := by
+  unfold fdiv num den
+  obtain ⟨m1, e1⟩ := x
+  obtain ⟨m2, e2⟩ := y
+  simp only at hx hy ⊢
+  have g1 : m1 * 2 ^ e1.toNat * 2 ^ (-e2).toNat = m1 * 2 ^ (e1.toNat + (-e2).toNat) := by grind
+  have g2 : m2 * 2 ^ e2.toNat * 2 ^ (-e1).toNat = m2 * 2 ^ (e2.toNat + (-e1).toNat) := by grind
+  rw [g1, g2]
+  by_cases h : e1 - e2 ≥ 0
+  · simp only [h, if_true]
+    have hP : e1.toNat + (-e2).toNat = (e2.toNat + (-e1).toNat) + (e1 - e2).toNat := by omega
+    rw [hP]
+    have c1 : m1 * 2 ^ (e2.toNat + (-e1).toNat + (e1 - e2).toNat)
+        = 2 ^ (e2.toNat + (-e1).toNat) * (m1 * 2 ^ (e1 - e2).toNat) := by grind
+    have c2 : m2 * 2 ^ (e2.toNat + (-e1).toNat) = 2 ^ (e2.toNat + (-e1).toNat) * m2 := Nat.mul_comm _ _
+    rw [c1, c2, rnDiv_scale _ _ _ (Nat.pow_pos (by decide))
+      (Nat.mul_pos hx (Nat.pow_pos (by decide))) hy]
+  · simp only [h, if_false]
+    have hQ : e2.toNat + (-e1).toNat = (e1.toNat + (-e2).toNat) + (-(e1 - e2)).toNat := by omega
+    rw [hQ]
+    have c1 : m2 * 2 ^ (e1.toNat + (-e2).toNat + (-(e1 - e2)).toNat)
+        = 2 ^ (e1.toNat + (-e2).toNat) * (m2 * 2 ^ (-(e1 - e2)).toNat) := by grind
+    have c2 : m1 * 2 ^ (e1.toNat + (-e2).toNat) = 2 ^ (e1.toNat + (-e2).toNat) * m1 := Nat.mul_comm _ _
+    rw [c1, c2, rnDiv_scale _ _ _ (Nat.pow_pos (by decide)) hx
+      (Nat.mul_pos hy (Nat.pow_pos (by decide)))]
+
+/-- the integer that `n as f64` denotes -/
+def rnNat (n : Nat) : Nat := num (ofNat n) / den (ofNat n)
+
+theorem ofNat_nd (n : Nat) (hn : 0 < n) :
+    ∃ m a b : Nat, (a = 0 ∨ b = 0) ∧ RN n 1 m a b ∧
+      num (ofNat n) = m * 2 ^ b ∧ den (ofNat n) = 2 ^ a ∧ rnNat n * 2 ^ a = m * 2 ^ b := by
+  obtain ⟨m, a, b, hab, h, x, y⟩ := rnDiv_nd n 1 hn (by decide)
+  refine ⟨m, a, b, hab, h, x, y, ?_⟩
+  unfold rnNat ofNat
+  rw [x, y]
+  rcases hab with rfl | rfl
+  · simp
+  · have hm := h.m_eq
+    simp only [Nat.pow_zero, Nat.mul_one, rnStep_one] at hm
+    rw [hm]; simp [Nat.mul_div_cancel _ (Nat.pow_pos (n := a) (by decide : 0 < 2))]
+
+theorem rnNat_spec (n : Nat) (hn : 0 < n) : num (ofNat n) = rnNat n * den (ofNat n) := by
+  obtain ⟨m, a, b, _, _, x, y, z⟩ := ofNat_nd n hn
+  rw [x, y, z]
+
+theorem rnNat_approx (n : Nat) (hn : 0 < n) : Approx (rnNat n) 1 n 1 := by
+  have h := rnDiv_approx n 1 hn (by decide)
+  have hs := rnNat_spec n hn
+  unfold ofNat at hs
+  rw [hs] at h
+  have hp := den_pos (rnDiv n 1)
+  generalize den (rnDiv n 1) = D at *
+  generalize rnNat n = R at *
+  obtain ⟨h1, h2, h3, h4⟩ := h
+  simp only [Nat.mul_one] at h1 h2 h3 h4
+  constructor <;> simp only [Nat.mul_one] <;> apply Nat.le_of_mul_le_mul_right _ hp
+  · calc 2 ^ 53 * R * D = 2 ^ 53 * (R * D) := by grind
+      _ ≤ _ := h1
+      _ = _ := by grind
+  · calc 2 ^ 53 * R * D = 2 ^ 53 * (R * D) := by grind
+      _ ≤ _ := h2
+      _ = _ := by grind
+  · calc 2 ^ 53 * n * D = 2 ^ 53 * (n * D) := by grind
+      _ ≤ _ := h3
+      _ = _ := by grind
+  · calc 2 ^ 53 * n * D = 2 ^ 53 * (n * D) := by grind
+      _ ≤ _ := h4
+      _ = _ := by grind
+
+theorem rnNat_pos (n : Nat) (hn : 0 < n) : 0 < rnNat n := by
+  have h := (rnNat_approx n hn).dn_x
+  simp only [Nat.mul_one] at h
+  omega
+
+/-- `u64 as f64` is monotone -/
+theorem rnNat_mono (s t : Nat) (hs : 0 < s) (hst : s ≤ t) : rnNat s ≤ rnNat t := by
+  have ht : 0 < t := Nat.lt_of_lt_of_le hs hst
+  have h := rnDiv_mono s 1 t 1 hs (by decide) ht (by decide) (by simpa using hst)
+  have h1 := rnNat_spec s hs
+  have h2 := rnNat_spec t ht
+  unfold ofNat at h1 h2
+  rw [h1, h2] at h
+  have p1 := den_pos (rnDiv s 1)
+  have p2 := den_pos (rnDiv t 1)
+  generalize den (rnDiv s 1) = D1 at *
+  generalize den (rnDiv t 1) = D2 at *
+  apply Nat.le_of_mul_le_mul_right _ (Nat.mul_pos p1 p2)
+  calc rnNat s * (D1 * D2) = rnNat s * D1 * D2 := by grind
+    _ ≤ _ := h
+    _ = _ := by grind
+
+/-- integers with at most 53 significant bits are represented exactly -/
+theorem rnNat_exact (c k : Nat) (hc : 0 < c) (hc2 : c ≤ 2 ^ 53) : rnNat (c * 2 ^ k) = c * 2 ^ k := by
+  have hn : 0 < c * 2 ^ k := Nat.mul_pos hc (Nat.pow_pos (by decide))
+  obtain ⟨m, a, b, hab, h, _, _, z⟩ := ofNat_nd (c * 2 ^ k) hn
+  rcases hab with rfl | rfl
+  · simp only [Nat.pow_zero, Nat.mul_one] at z
+    rw [z]
+    have hm := h.m_eq
+    have ⟨lo, hi⟩ := h.bnd
+    simp only [Nat.pow_zero, Nat.mul_one, Nat.one_mul] at hm lo hi
+    rcases Nat.lt_or_ge k b with hkb | hbk
+    · -- b = k+1 and c = 2^53
+      have hp : 2 ^ (k + 1) ≤ 2 ^ b := Nat.pow_le_pow_right (by decide) hkb
+      have s1 := Nat.mul_le_mul_left (2 ^ 52) hp
+      have s2 := Nat.mul_le_mul_right (2 ^ k) hc2
+      have e1 : 2 ^ 52 * 2 ^ (k + 1) = 2 ^ 53 * 2 ^ k := by grind
+      have hceq : c * 2 ^ k = 2 ^ 52 * 2 ^ b := by omega
+      rw [hm, hceq, rnStep_exact _ _ (Nat.pow_pos (by decide))]
+    · obtain ⟨j, rfl⟩ := Nat.exists_eq_add_of_le hbk
+      have e1 : c * 2 ^ (b + j) = c * 2 ^ j * 2 ^ b := by grind
+      rw [hm, e1, rnStep_exact _ _ (Nat.pow_pos (by decide))]
+  · have hm := h.m_eq
+    simp only [Nat.pow_zero, Nat.mul_one, rnStep_one] at hm z
+    rw [hm] at z
+    exact Nat.eq_of_mul_eq_mul_right (Nat.pow_pos (n := a) (by decide : 0 < 2)) z
+
+theorem rnNat_small (n : Nat) (hn : 0 < n) (h : n ≤ 2 ^ 53) : rnNat n = n := by
+  have := rnNat_exact n 0 hn h
+  simpa using this
+
+theorem fdiv_ofNat (N s : Nat) (hN : 0 < N) (hs : 0 < s) :
+    fdiv (ofNat N) (ofNat s) = rnDiv (rnNat N) (rnNat s) := by
+  rw [fdiv_eq (ofNat N) (ofNat s) (show 0 < (ofNat N).1 from rnDiv_fst_pos N 1 hN (by decide))
+      (show 0 < (ofNat s).1 from rnDiv_fst_pos s 1 hs (by decide)),
+    rnNat_spec N hN, rnNat_spec s hs]
+  have e1 : rnNat N * den (ofNat N) * den (ofNat s) = den (ofNat N) * den (ofNat s) * rnNat N := by grind
+  have e2 : rnNat s * den (ofNat s) * den (ofNat N) = den (ofNat N) * den (ofNat s) * rnNat s := by grind
+  rw [e1, e2, rnDiv_scale _ _ _ (Nat.mul_pos (den_pos _) (den_pos _)) (rnNat_pos N hN) (rnNat_pos s hs)]
+
+theorem rnNat_u64max : rnNat u64max = 2 ^ 64 := by decide
+
 end Scaled
